@@ -48,17 +48,22 @@ type cVal struct {
 }
 
 type cModel struct {
-	vals      map[string]*cVal
-	order     []string
-	index     map[string]bool // hex(addr)/height
-	dsPct     uint64
-	maxPct    uint64
-	v2From    uint64 // protocol 2 active from this height (0: from genesis; ^0: never)
-	tracker   map[string]map[uint64]uint64
-	slashes   map[string]int // slash events expected in the current block
-	capUsed   map[string]map[uint64]bool
-	by        map[string]map[uint64]bool // committees that slashed the validator in the current block (any protocol)
-	unstakeBl uint64
+	vals              map[string]*cVal
+	order             []string
+	index             map[string]bool // hex(addr)/height
+	dsPct             uint64
+	maxPct            uint64
+	v2From            uint64 // protocol 2 active from this height (0: from genesis; ^0: never)
+	tracker           map[string]map[uint64]uint64
+	slashes           map[string]int // slash events expected in the current block
+	capUsed           map[string]map[uint64]bool
+	by                map[string]map[uint64]bool // committees that slashed the validator in the current block (any protocol)
+	unstakeBl         uint64
+	minStake          uint64         // MinimumStakeForValidators
+	cuts              map[string]int // stake reductions in the current block (rounding slack of the cap bound)
+	forced            int            // force-unstakes caused by a slash
+	forcedThenSlashed int            // slashes of a validator that was force-unstaked earlier in the same block
+	forcedAt          map[string]uint64
 	// statistics
 	accepted, rejectedRepeat, rejectedDupInList, capped, skippedUnknown, crossCommittee, bursts, failingBetween int
 }
@@ -124,7 +129,19 @@ func (m *cModel) slash(addr []byte, chainID, h uint64) {
 	default:
 		after = new(big.Int).Div(new(big.Int).Mul(new(big.Int).SetUint64(v.stake), big.NewInt(int64(100-p))), big.NewInt(100)).Uint64()
 	}
-	m.slashes[string(addr)]++
+	m.cuts[string(addr)]++
+	if m.forcedAt[string(addr)] == h {
+		m.forcedThenSlashed++
+	}
+	if after != 0 && v.unstaking == 0 && after < m.minStake {
+		// documented (SetValidatorUnstakingIfBelowMinimum): a slash that pushes the stake below the minimum force-unstakes the
+		// validator; it keeps its committees and stays slashable until it is gone; this exit emits no slash event
+		v.unstaking = h + m.unstakeBl
+		m.forcedAt[string(addr)] = h
+		m.forced++
+	} else {
+		m.slashes[string(addr)]++
+	}
 	if m.by[string(addr)] == nil {
 		m.by[string(addr)] = map[uint64]bool{}
 	}
@@ -183,7 +200,7 @@ func (m *cModel) snapshotTracker() map[string]map[uint64]uint64 {
 }
 
 func newSlashChain(t *rapid.T) (*chainsim.Chain, *cModel) {
-	m := &cModel{vals: map[string]*cVal{}, index: map[string]bool{}, tracker: map[string]map[uint64]uint64{}, slashes: map[string]int{}, capUsed: map[string]map[uint64]bool{}, by: map[string]map[uint64]bool{}}
+	m := &cModel{vals: map[string]*cVal{}, index: map[string]bool{}, tracker: map[string]map[uint64]uint64{}, slashes: map[string]int{}, capUsed: map[string]map[uint64]bool{}, by: map[string]map[uint64]bool{}, cuts: map[string]int{}, forcedAt: map[string]uint64{}}
 	m.dsPct = []uint64{10, 5, 15, 50, 100, 7}[rapid.IntRange(0, 5).Draw(t, "dsPct")]
 	m.maxPct = []uint64{15, 10, 20, 100, 5}[rapid.IntRange(0, 4).Draw(t, "maxPct")]
 	switch rapid.IntRange(0, 3).Draw(t, "protocol") {
@@ -194,6 +211,12 @@ func newSlashChain(t *rapid.T) (*chainsim.Chain, *cModel) {
 	default:
 		m.v2From = uint64(rapid.IntRange(3, 8).Draw(t, "v2Height"))
 	}
+	if rapid.IntRange(0, 2).Draw(t, "minStakeMode") == 1 {
+		m.minStake = 900_000
+		if m.v2From != 0 && rapid.IntRange(0, 2).Draw(t, "minStakeProtocol2") != 0 {
+			m.v2From = 0 // the per-committee cap (protocol 2) is what a force-unstaking slash must still count against
+		}
+	}
 	stakes := []uint64{1_000_000, 100, 7, 1, 10_000, 999_999, 55}
 	comms := [][]uint64{{1, 2}, {1, 2}, {1, 2}, {1, 2}, {1}, {2}}
 	var vals []chainsim.ValSpec
@@ -202,6 +225,9 @@ func newSlashChain(t *rapid.T) (*chainsim.Chain, *cModel) {
 		st := stakes[rapid.IntRange(0, len(stakes)-1).Draw(t, "stake")]
 		if i < 3 {
 			st = 1_000_000 + uint64(i) // keep a +2/3 majority of committee 2 alive whatever happens to the small ones
+		}
+		if m.minStake > 0 && i >= 1 && i <= 3 {
+			st = m.minStake + 1 + uint64(i)*m.minStake/90 // burst victims start just above the minimum (min+1 .. min*1.1)
 		}
 		vals = append(vals, chainsim.ValSpec{Key: i, OutputKey: -1, Stake: st, Committees: comms[i]})
 		accts = append(accts, chainsim.AcctSpec{Kind: 0, Key: i, Amount: 10_000_000})
@@ -214,6 +240,7 @@ func newSlashChain(t *rapid.T) (*chainsim.Chain, *cModel) {
 	p.Validator.MaxSlashPerCommittee = m.maxPct
 	p.Validator.NonSignWindow = 1000
 	p.Validator.UnstakingBlocks = 3
+	p.Validator.MinimumStakeForValidators = m.minStake
 	m.unstakeBl = 3
 	switch {
 	case m.v2From == 0:
@@ -297,7 +324,7 @@ func (m *cModel) check(c *chainsim.Chain, h uint64, evs []*lib.Event, pre map[st
 			}
 			lost := new(big.Rat).SetUint64(pre[a] - sv.StakedAmount)
 			bound := new(big.Rat).Sub(new(big.Rat).SetUint64(pre[a]), keep)
-			bound.Add(bound, new(big.Rat).SetInt64(int64(m.slashes[a])))
+			bound.Add(bound, new(big.Rat).SetInt64(int64(m.cuts[a])))
 			if lost.Cmp(bound) > 0 {
 				return fmt.Errorf("validator v%d lost %s of %d in one block, more than the cap %d%% of %d committee(s) allows (%s)", v.key, lost.FloatString(0), pre[a], m.maxPct, len(m.capUsed[a]), bound.FloatString(2))
 			}
@@ -366,7 +393,7 @@ func TestC14bSlashApplication(t *testing.T) {
 		ec := rec.Case()
 		c, m := newSlashChain(t)
 		defer c.Close()
-		ec.Desc("ds=%d%% cap=%d%% v2From=%d", m.dsPct, m.maxPct, int64(m.v2From))
+		ec.Desc("ds=%d%% cap=%d%% v2From=%d minStake=%d", m.dsPct, m.maxPct, int64(m.v2From), m.minStake)
 		var pendingOwn []*lib.DoubleSigner
 		pendingSet := false
 		c2H := uint64(0)
@@ -375,7 +402,7 @@ func TestC14bSlashApplication(t *testing.T) {
 		fresh := uint64(0)
 		for b := 0; b < nBlocks; b++ {
 			h := c.Height()
-			m.tracker, m.slashes, m.capUsed, m.by = map[string]map[uint64]uint64{}, map[string]int{}, map[string]map[uint64]bool{}, map[string]map[uint64]bool{}
+			m.tracker, m.slashes, m.capUsed, m.by, m.cuts = map[string]map[uint64]uint64{}, map[string]int{}, map[string]map[uint64]bool{}, map[string]map[uint64]bool{}, map[string]int{}
 			pre := map[string]uint64{}
 			for _, a := range m.order {
 				pre[a] = m.vals[a].stake
@@ -582,6 +609,8 @@ func TestC14bSlashApplication(t *testing.T) {
 		ec.ClassIf(m.crossCommittee > 0, "two-committees-slash-one-validator-in-one-block")
 		ec.ClassIf(m.skippedUnknown > 0, "unknown-or-removed-validator")
 		ec.ClassIf(m.accepted > 0, "slash-applied")
+		ec.ClassIf(m.forced > 0, "slash-below-minimum-stake-force-unstakes")
+		ec.ClassIf(m.forcedThenSlashed > 0, "force-unstaked-validator-slashed-again-in-the-same-block")
 		ec.ClassIf(m.bursts > 0, "one-committee-slashes-one-validator-in-several-txs-of-a-block")
 		ec.ClassIf(m.failingBetween > 0, "failing-tx-between-slashing-txs")
 		switch m.v2From {
